@@ -1,2 +1,8 @@
 import CssVerif.Props.C20
-#print axioms CssVerif.C20.placeholder
+#print axioms CssVerif.C20.enc_priority
+#print axioms CssVerif.C20.enc_source
+#print axioms CssVerif.C20.hand_on
+#print axioms CssVerif.C20.fetch_contained
+#print axioms CssVerif.C20.snapshot_counterexample
+#print axioms CssVerif.C20.urljoin_rfc
+#print axioms CssVerif.C20.above_root_differs
